@@ -210,7 +210,7 @@ func c18LookAhead(c *Ctx, r *Report) {
 	if n == 0 {
 		r.OK("R18.4", "no fixed-width window slice", "", fmt.Sprintf("%d string/byte slice expressions examined, none of the form s[i : i+k]", examined))
 	}
-	r.Floor("R18.4", "string slice expressions examined", examined, 100)
+	r.Floor("R18.4", "string slice expressions examined", examined, 80)
 }
 
 // ---- R18.4b: run-time slice bounds ------------------------------------------------
@@ -335,8 +335,24 @@ func c18SliceBounds(c *Ctx, r *Report) {
 				switch sl := in.(type) {
 				case *ssa.Slice:
 					n++
-					for _, bd := range []ssa.Value{sl.Low, sl.High} {
-						if ok, _ := trustedBound(bd, sl.X, 0); ok {
+					for bi, bd := range []ssa.Value{sl.Low, sl.High} {
+						ok, _ := trustedBound(bd, sl.X, 0)
+						// a positive constant *upper* bound (s[:7], s[i:7]) is in range only of an array of
+						// known size: for a string or slice it needs a length test like any other bound.
+						// (A constant lower bound, s[1:], usually follows an idiom — s[0] was just read,
+						// s != "" — that this rule does not model; it is not checked.)
+						if k, isK := bd.(*ssa.Const); isK && bi == 1 {
+							if n, isInt := constInt(k); isInt && n > 0 {
+								t := sl.X.Type()
+								if p, isP := t.Underlying().(*types.Pointer); isP {
+									t = p.Elem()
+								}
+								if _, isArr := t.Underlying().(*types.Array); !isArr {
+									ok = false
+								}
+							}
+						}
+						if ok {
 							continue
 						}
 						nb++
